@@ -392,7 +392,7 @@ impl PmTree {
             self.cached_leaves_indices[*i] = 0;
         }
 
-        for i in start..(max_index - min_index) {
+        for i in start..max_index {
             self.cached_leaves_indices[i] = 1
         }
         Ok(())
